@@ -14,35 +14,35 @@ import (
 
 	"verif/sim/core"
 
-	_ "verif/sim/chainsim"
+	"verif/sim/chainsim"
 	_ "verif/sim/storesim"
 )
 
 type Job struct {
-	Mode     string `json:"mode"` // batch | replay | minimise
-	Engine   string `json:"engine"`
-	Property string `json:"property"`
-	Tier     string `json:"tier"`
-	SeedBase uint64 `json:"seed_base"`
-	Start    int    `json:"start"`
-	Stride   int    `json:"stride"`
-	MaxRuns  int    `json:"max_runs"`
-	BudgetS  float64 `json:"budget_s"`
-	Out      string `json:"out"`
-	Schedule string `json:"schedule"` // path, for replay/minimise
-	Identity string `json:"identity"`
-	MinBudget int   `json:"min_budget"`
-	KeepSchedules int `json:"keep_schedules"` // number of passing schedules to emit as samples
+	Mode          string  `json:"mode"` // batch | replay | minimise
+	Engine        string  `json:"engine"`
+	Property      string  `json:"property"`
+	Tier          string  `json:"tier"`
+	SeedBase      uint64  `json:"seed_base"`
+	Start         int     `json:"start"`
+	Stride        int     `json:"stride"`
+	MaxRuns       int     `json:"max_runs"`
+	BudgetS       float64 `json:"budget_s"`
+	Out           string  `json:"out"`
+	Schedule      string  `json:"schedule"` // path, for replay/minimise
+	Identity      string  `json:"identity"`
+	MinBudget     int     `json:"min_budget"`
+	KeepSchedules int     `json:"keep_schedules"` // number of passing schedules to emit as samples
 }
 
 type Line struct {
-	Kind     string          `json:"kind"` // start | run | min | end
-	Seed     uint64          `json:"seed,omitempty"`
-	Result   *core.Result    `json:"result,omitempty"`
-	Schedule *core.Schedule  `json:"schedule,omitempty"`
-	Panic    string          `json:"panic,omitempty"`
-	Runs     int             `json:"runs,omitempty"`
-	WallS    float64         `json:"wall_s,omitempty"`
+	Kind     string         `json:"kind"` // start | run | min | end
+	Seed     uint64         `json:"seed,omitempty"`
+	Result   *core.Result   `json:"result,omitempty"`
+	Schedule *core.Schedule `json:"schedule,omitempty"`
+	Panic    string         `json:"panic,omitempty"`
+	Runs     int            `json:"runs,omitempty"`
+	WallS    float64        `json:"wall_s,omitempty"`
 }
 
 func SeedFor(base uint64, i int) uint64 { return base*1000003 + uint64(i) }
@@ -126,6 +126,15 @@ func TestWorker(t *testing.T) {
 	default:
 		t.Fatalf("unknown mode %q", job.Mode)
 	}
+}
+
+// TestImportChild is the child process of the C43 check.
+func TestImportChild(t *testing.T) {
+	path := os.Getenv("SIM_IMPORT")
+	if path == "" {
+		t.Skip("no SIM_IMPORT")
+	}
+	chainsim.ImportChild(path)
 }
 
 func readSchedule(t *testing.T, path string) *core.Schedule {
